@@ -29,6 +29,14 @@ TRUSTED = {
     ],
 }
 
+TRUSTED["C10"] = [
+    "abstract contract of gen.MAC at the call site in SC_apply: a number in [0, 1] determined by the two vectors, "
+    "non-finite iff a vector is (its value is the subject of C18)",
+    "havoc contracts of the identification kernels at run()'s call sites; table shapes (SSI: ordmax x ordmax+1 for "
+    "step 1; pLSCF: one column per order 1..ordmax) as established by the C01/C05 contracts",
+    "contracts of gen.HC_* / gen.applymask (proved under C09) at run()'s call sites",
+]
+
 ASSUMPTIONS = {
     "C09": [
         "a mode-shape vector in a pole table is either entirely non-finite or entirely finite",
@@ -36,7 +44,11 @@ ASSUMPTIONS = {
     ],
 }
 
+ASSUMPTIONS["C10"] = ["scope of the order window clause: step == 1 (columns are model orders), as in the property's quantifier"]
+
 NOT_DECIDED = {
+    "C10": ["MAC value itself (C18)", "label purity is a consequence of the functional contract (result == spec(arguments)); "
+                                      "absence of writes to the argument tables is checked by the replay only"],
     "C09": ["the numerical values of MPC/MPD themselves (C18)"],
 }
 
